@@ -242,7 +242,7 @@ impl Prop for C10 {
             ("unknown-names".into(), format!("{nbad} unknown or malformed category / block names"), Box::new(bad.into_iter().map(Case10::BadName))),
         ]
     }
-    fn extra(&self, _ctx: &mut Ctx) -> Vec<(String, Verdict)> {
+    fn extra(&self, _ctx: &mut Ctx) -> Vec<(String, Verdict, Option<Case10>)> {
         // regexml/src/block.rs must be what regexml-ucd-blocks generates from the shipped block lists
         let tdir = verif_dir().join("harness").join("target").join("ucd");
         let out = std::process::Command::new("cargo")
@@ -269,6 +269,7 @@ impl Prop for C10 {
             return vec![(
                 "stale-block-table".into(),
                 Verdict::Fail(Failure { sub: "stale-block-table".into(), expected: "regexml/src/block.rs equals the output of regexml-ucd-blocks (modulo whitespace)".into(), actual: "they differ".into(), detail: String::new() }),
+                None,
             )];
         }
         vec![]
